@@ -63,7 +63,10 @@ mutual
 /-- one call: its task's pre-tasks (recursively), the call itself, its task's post-tasks -/
 def expandCall : TaskT → CArgs → List Occ
   | .mk id key cls pre post, a => expand pre ++ ⟨id, key, cls, a⟩ :: expand post
-/-- `Executor.expand_calls` -/
+/-- `Executor.expand_calls`.  The expansion follows the pre/post lists of the task OBJECTS; whether a task is
+    registered in the executor's collection plays no role (only requested names are looked up there), so a
+    helper task that is in no collection is expanded and run like any other, and a dependency chain may be
+    arbitrarily deeper than the collection is large. -/
 def expand : List CallT → List Occ
   | [] => []
   | (t, a) :: cs => expandCall t a ++ expand cs
